@@ -235,8 +235,8 @@ def mesh_optimizer(ctx):
     q0 = opt.grid.quality
     case = ctx.case
     if case == "radial-bounds":
-        # circle about the z axis through the vertex: radius ~ 3.2 > 1; parameter is arc length
-        clamp = RadialClamp(pos1[lower], [0.0, 0.0, 0.0], [0.0, 0.0, 1.0], bounds=[-0.15, 0.15])
+        # circle about an axis parallel to z that does not pass through the origin: radius ~ 5.2 > 1; parameter is arc length
+        clamp = RadialClamp(pos1[lower], [-2.0, -0.5, 0.3], [0.0, 0.0, 2.0], bounds=[-0.15, 0.15])
         opt.add_clamp(clamp)
         opt.add_link(TranslationLink(pos1[lower], pos1[upper]))
     elif case == "two-followers":
@@ -263,8 +263,48 @@ def mesh_optimizer(ctx):
         k = others[0]
         ctx.prove("second-follower-keeps-its-offset-too", np.allclose(pos2[k] - pos2[lower], pos1[k] - pos1[lower], atol=1e-9))
     if case == "radial-bounds":
-        r1, r2 = np.hypot(*pos1[lower][:2]), np.hypot(*pos2[lower][:2])
-        ang = math.atan2(pos2[lower][1], pos2[lower][0]) - math.atan2(pos1[lower][1], pos1[lower][0])
+        cxy = np.array([-2.0, -0.5])
+        r1, r2 = np.hypot(*(pos1[lower][:2] - cxy)), np.hypot(*(pos2[lower][:2] - cxy))
+        ang = math.atan2(*(pos2[lower][:2] - cxy)[::-1]) - math.atan2(*(pos1[lower][:2] - cxy)[::-1])
         ctx.prove("radially-clamped-vertex-keeps-radius-and-height", abs(r1 - r2) < 1e-8 and abs(pos2[lower][2] - pos1[lower][2]) < 1e-9)
         ctx.prove("radially-clamped-vertex-stays-inside-the-arc-length-bounds", abs(ang * r1) <= 0.15 + 1e-7, arc=ang * r1)
     ctx.prove("mesh-vertices-equal-the-optimizers-final-positions", np.allclose(pos2, np.asarray(opt.grid.points, dtype=float), atol=0))
+
+
+@proof("C13", "bounded/degenerate-cells-are-reported-not-measured", cases=["zero-length-edge", "collinear-corner", "curve-ending-in-a-neighbour"], level="B", samples=3,
+       functions=["classy_blocks.optimize.cell:CellBase.quality", OP + "optimize_clamp", "classy_blocks.optimize.clamps.curve:CurveClamp.__init__"],
+       note="bounded stand-in: a quad with a collapsed edge / a straightened corner has no quality (ValueError, never NaN); an optimisation whose "
+            "trials run into such a cell (clamp curve ending in a neighbouring point) is rolled back: no collapsed cell left, finite quality, not worse")
+def degenerate_cells(ctx):
+    from classy_blocks.construct.curves.analytic import AnalyticCurve
+    from classy_blocks.optimize.cell import QuadCell
+    from classy_blocks.optimize.clamps.curve import CurveClamp
+
+    rng = ctx.rng
+    if ctx.case in ("zero-length-edge", "collinear-corner"):
+        P = np.array([[0.0, 0.0, 0.0], [1.0, 0.0, 0.0], [1.0, 1.0, 0.0], [0.0, 1.0, 0.0]]) * rng.uniform(0.5, 2) + np.array([rng.uniform(-3, 3), rng.uniform(-3, 3), 0.0])
+        if ctx.case == "zero-length-edge":
+            P[2] = P[1]
+        else:
+            P[1] = (P[0] + P[2]) / 2 - (P[2] - P[0]) * 0.0      # corner 1 on the diagonal: corners 0, 1, 2 collinear
+        value, exc = ctx.call(lambda: QuadCell(P, [0, 1, 2, 3]).quality)
+        ctx.prove("no-number-for-a-degenerate-cell", isinstance(exc, ValueError) or (exc is None and np.isfinite(value)), value=repr(value), exc=repr(exc))
+        ctx.prove("never-nan", exc is not None or not np.isnan(value))
+        return
+    positions = np.array([[0, 0, 0], [1, 0, 0], [2, 0, 0], [0, 1, 0], [1, 1.6, 0], [2, 1, 0], [0, 2, 0], [1, 2, 0], [2, 2, 0]], dtype=float)
+    sketch = cb.MappedSketch(positions, [list(q) for q in QUADS])
+    start = np.array(sketch.positions, dtype=float).copy()
+    q_before = QuadGrid.from_sketch(sketch).quality
+    curve = AnalyticCurve(lambda t: np.array([1.0, max(0.0, 1.6 - 2 * (t - 1)), 0.0]), (0.9, 2))   # runs down x = 1 and ends in point 1
+    opt = SketchOptimizer(sketch, report=False)
+    opt.add_clamp(CurveClamp(positions[4], curve, initial_param=1.0))
+    import contextlib
+    import io
+
+    with contextlib.redirect_stdout(io.StringIO()):
+        opt.optimize(max_iterations=rng.randint(1, 3), method=rng.choice(["SLSQP", "L-BFGS-B", "Nelder-Mead", "Powell"]))
+    end = np.array(sketch.positions, dtype=float)
+    ctx.prove("unclamped-points-do-not-move", all(np.array_equal(end[i], start[i]) for i in range(9) if i != 4))
+    ctx.prove("no-collapsed-cell-left-behind", float(np.linalg.norm(end[4] - end[1])) > 1e-3, end=end[4].tolist())
+    q_after, exc = ctx.call(lambda: QuadGrid.from_sketch(sketch).quality)
+    ctx.prove("quality-finite-and-not-worse", exc is None and np.isfinite(q_after) and q_after <= q_before + 1e-9, before=q_before, after=repr(q_after), exc=repr(exc))
